@@ -32,7 +32,7 @@ def make_task(rng, kind):
     draw = family.make_draw(rng, [g], dtype="float32", pdtype="float32")
     masks, cur = [], [True] * len(shapes)
     for _ in range(rng.choice([3, 4])):
-        if rng.random() < 0.5:
+        if rng.random() < 0.35:
             i = rng.randrange(len(cur))
             cur[i] = not cur[i]
         masks.append(list(cur))
@@ -66,7 +66,7 @@ def run(ctx):
         ctx.add_tlc(r, f"ShampooDist (one replicate column) R={W} GS={GS}")
         if not r.ok:
             raise tlc.TLCMachineryError(f"ShampooDist column model violates {r.violated}")
-    tasks = attach_spec([make_task(rng, "fully") for _ in range(24 if quick else 300)] + [make_task(rng, "hybrid") for _ in range(24 if quick else 300)])
+    tasks = attach_spec([make_task(rng, "fully") for _ in range(40 if quick else 400)] + [make_task(rng, "hybrid") for _ in range(30 if quick else 300)])
     tasks = [t for t in tasks if C07.usable(t)]
     results = sp.pool_map(dc.run_dtensor_task, tasks)
     # the filtered (non-empty) parameter list must be what block ids are indexed over: check keys are unique per rank
